@@ -71,9 +71,20 @@ value_closure::cmp (value const &v) const
 {
   if (auto that = value::as <value_closure> (&v))
     {
-      auto a = std::make_tuple (m_op, std::cref (m_env));
-      auto b = std::make_tuple (that->m_op, std::cref (that->m_env));
-      return compare (a, b);
+      cmp_result ret = compare (m_op, that->m_op);
+      if (ret != cmp_result::equal)
+	return ret;
+
+      // Environments hold copies of the captured values.  Compare those
+      // values, not the addresses where the individual copies live.
+      ret = compare (m_env.size (), that->m_env.size ());
+      for (size_t i = 0; ret == cmp_result::equal && i < m_env.size (); ++i)
+	{
+	  ret = compare (m_env[i]->get_type (), that->m_env[i]->get_type ());
+	  if (ret == cmp_result::equal)
+	    ret = m_env[i]->cmp (*that->m_env[i]);
+	}
+      return ret;
     }
   else
     return cmp_result::fail;
